@@ -77,6 +77,12 @@ class Summary(object):
             now = tuple(self.st.canon(b) for b in mem.load_bytes(self.st, self.so, C(off), n))
             ent = self.fs.entry_bytes(off, n)
             if now != ent and now != tuple(self.st.canon(b) for b in ent):
+                # a pointer that was loaded and stored back (saved across a wipe of the record) reads as the byte lanes of the
+                # pointer value the entry bytes stand for: the same bytes
+                t0 = now[0][1] if len(now[0]) == 3 and now[0][0] == 'byte' else None
+                if (t0 is not None and t0[0] == 'pset' and t0[1] == ent[0] and ent[0][0] == 'in'
+                        and all(len(b) == 3 and b[0] == 'byte' and b[1] == t0 and b[2] == i for i, b in enumerate(now))):
+                    continue
                 out.append(name)
         return out
 
